@@ -11,6 +11,14 @@ import Kopf.Drv.C12
 import Kopf.Drv.C18
 import Kopf.Drv.C17
 import Kopf.Drv.C08
+import Kopf.Drv.C13
+import Kopf.Drv.C10
+import Kopf.Drv.C19
+import Kopf.Drv.C07
+import Kopf.Drv.C20
+import Kopf.Drv.C03
+import Kopf.Drv.C06
+import Kopf.Drv.C09
 namespace Kopf.Drv
 def echoHandler : DrvHandler := fun op args =>
   if op == "echo" then
@@ -18,5 +26,5 @@ def echoHandler : DrvHandler := fun op args =>
     | [j] => (toJ j).map (fun v => ok (ofJ v))
     | _ => none
   else none
-def allHandlers : List DrvHandler := [echoHandler, C01.handle, C04.handle, C05.handle, C02.handle, C14.handle, C11.handle, C16.handle, C15.handle, C12.handle, C18.handle, C17.handle, C08.handle]
+def allHandlers : List DrvHandler := [echoHandler, C01.handle, C04.handle, C05.handle, C02.handle, C14.handle, C11.handle, C16.handle, C15.handle, C12.handle, C18.handle, C17.handle, C08.handle, C13.handle, C10.handle, C19.handle, C07.handle, C20.handle, C03.handle, C06.handle, C09.handle]
 end Kopf.Drv
